@@ -233,20 +233,43 @@ fn gen_pair(src: &mut Src) -> Pair {
         3 => {
             let p = hname(src, "Param", true);
             let np = 1 + src.pick(3);
-            let t1 = leaf(src);
+            // the first type argument: a builtin type, or (30 %) one that needs linking of its
+            // own: a constraint with a value reference, or an instantiation of another template
+            let mut arg_helpers: Vec<String> = vec![];
+            let mut arg_expanded_helpers: Vec<String> = vec![];
+            let arg_kind = if src.chance(30) { 1 + src.pick(2) } else { 0 };
+            let (t1s, t1x): (String, String) = match arg_kind {
+                1 => {
+                    let r = hname(src, "pmax", false);
+                    arg_helpers.push(format!("{r} INTEGER ::= 10"));
+                    arg_expanded_helpers.push(format!("{r} INTEGER ::= 10"));
+                    (format!("INTEGER (0..{r})"), format!("INTEGER (0..{r})"))
+                }
+                2 => {
+                    let b = hname(src, "Bounded", true);
+                    arg_helpers.push(format!("{b} {{INTEGER:bn}} ::= INTEGER (0..bn)"));
+                    (format!("{b} {{7}}"), "INTEGER (0..7)".to_string())
+                }
+                _ => {
+                    let l = leaf(src);
+                    (l.to_string(), l.to_string())
+                }
+            };
+            let t1 = t1s.as_str();
             let v1 = [3i128, 255, 70000][src.pick(3)];
             let t2 = leaf(src);
             let (params, tmpl, args, expd) = match np {
-                1 => ("Tp".to_string(), "a Tp, b INTEGER".to_string(), t1.to_string(), format!("a {t1}, b INTEGER")),
-                2 => ("Tp, INTEGER:vp".to_string(), "a Tp, b INTEGER (0..vp)".to_string(), format!("{t1}, {v1}"), format!("a {t1}, b INTEGER (0..{v1})")),
+                1 => ("Tp".to_string(), "a Tp, b INTEGER".to_string(), t1.to_string(), format!("a {t1x}, b INTEGER")),
+                2 => ("Tp, INTEGER:vp".to_string(), "a Tp, b INTEGER (0..vp)".to_string(), format!("{t1}, {v1}"), format!("a {t1x}, b INTEGER (0..{v1})")),
                 _ => (
                     "Tp, INTEGER:vp, Tq".to_string(),
                     "a Tp, b INTEGER (0..vp), c SEQUENCE OF Tq".to_string(),
                     format!("{t1}, {v1}, {t2}"),
-                    format!("a {t1}, b INTEGER (0..{v1}), c SEQUENCE OF {t2}"),
+                    format!("a {t1x}, b INTEGER (0..{v1}), c SEQUENCE OF {t2}"),
                 ),
             };
             let mut helpers = vec![format!("{p} {{{params}}} ::= SEQUENCE {{ {tmpl} }}")];
+            helpers.extend(arg_helpers);
             // further instantiations of the same template must not disturb this one
             for k in 0..src.pick(3) {
                 let other_args = match np {
@@ -257,13 +280,17 @@ fn gen_pair(src: &mut Src) -> Pair {
                 helpers.push(format!("Other-Inst{k} ::= {p} {{{other_args}}}"));
             }
             Pair {
-                kind: format!("parameterized x{np}"),
+                kind: format!("parameterized x{np}{}", ["", " (argument constrained by a value reference)", " (argument is an instantiation)"][arg_kind]),
                 sugared: arrange(src, helpers, format!("{TARGET} ::= {p} {{{args}}}")),
-                expanded: vec![format!("{TARGET} ::= SEQUENCE {{ {expd} }}")],
+                expanded: {
+                    let mut e = arg_expanded_helpers;
+                    e.push(format!("{TARGET} ::= SEQUENCE {{ {expd} }}"));
+                    e
+                },
                 // NULL as a type argument is taken for the NULL value: the instantiation stays an alias of the template name
                 wrong: if t1 == "NULL" || (np == 3 && t2 == "NULL") { vec![("F-param-null-arg".to_string(), vec![format!("{TARGET} ::= {p}")])] } else { vec![] },
                 header,
-                nontrivial: np >= 2,
+                nontrivial: np >= 2 || arg_kind > 0,
             }
         }
         // (d) selection type
